@@ -70,10 +70,10 @@ type c04Case struct {
 
 func genC04(t *rapid.T) c04Case {
 	c := c04Case{RF: rapid.SampledFrom([]int{1, 3, 3, 3}).Draw(t, "rf"), Batch: rapid.SampledFrom([]int{1, 4, 1024}).Draw(t, "batch"), OCC: rapid.IntRange(0, 4).Draw(t, "occ") == 0}
-	c.MinISR = rapid.IntRange(1, c.RF).Draw(t, "minisr")
+	c.MinISR = rapid.SampledFrom([]int{1, 1, 2, 2, 3}).Draw(t, "minisr") // may exceed the replication factor: nothing can be committed then
 	n := rapid.IntRange(2, 18).Draw(t, "nops")
 	for i := 0; i < n; i++ {
-		kinds := []string{"publish", "publish", "publish"}
+		kinds := []string{"publish", "publish", "publish", "bounce"}
 		if c.RF == 3 {
 			kinds = append(kinds, "report", "report", "report", "shrink", "expand")
 		}
@@ -108,6 +108,7 @@ type c04Pending struct {
 	step     int
 	acks     []*client.Ack
 	wantAck  bool // model: a positive ack is due (LEADER: once stored; ALL: once committed)
+	optional bool // the leader's partition was recreated while the ack was pending: it may never be sent
 }
 
 var (
@@ -230,7 +231,7 @@ func runC04(c c04Case, o *vfutil.Obs) *vfutil.Failure {
 		missing := func() *c04Pending {
 			for _, m := range pend {
 				want := 0
-				if m.wantAck || (!m.accepted && m.policy != 0) {
+				if (m.wantAck && !m.optional) || (!m.accepted && m.policy != 0) {
 					want = 1
 				}
 				if len(m.acks) < want {
@@ -298,7 +299,7 @@ func runC04(c c04Case, o *vfutil.Obs) *vfutil.Failure {
 					}
 					return vfutil.Failf("C04/all-ack-before-commit/"+cls, "%s was acknowledged although ISR %v (min %d) has offsets %v", desc, keys(isr), c.MinISR, offsets)
 				}
-				if m.wantAck && len(pos) == 0 {
+				if m.wantAck && !m.optional && len(pos) == 0 {
 					return vfutil.Failf("C04/all-ack-missing/bounded-liveness(20s)", "%s is committed (ISR %v offsets %v) but was not acknowledged", desc, keys(isr), offsets)
 				}
 			}
@@ -413,6 +414,34 @@ func runC04(c c04Case, o *vfutil.Obs) *vfutil.Failure {
 				offsets[rep] = o2
 			}
 			hist = append(hist, fmt.Sprintf("report(%s,%d)", rep, o2))
+		case "bounce":
+			// the partition is paused and resumed (what auto-pause or an operator
+			// does): the leader gets a new partition object built from the current
+			// metadata and must derive everything (ISR, min ISR state) from it
+			index++
+			if _, err := s.apply(&proto.RaftLog{Op: proto.Op_PAUSE_STREAM, PauseStreamOp: &proto.PauseStreamOp{Stream: name, Partitions: []int32{0}}}, index, false); err != nil {
+				return vfutil.Failf("harness/apply", "pause: %v", err)
+			}
+			index++
+			if _, err := s.apply(&proto.RaftLog{Op: proto.Op_RESUME_STREAM, ResumeStreamOp: &proto.ResumeStreamOp{Stream: name, Partitions: []int32{0}}}, index, false); err != nil {
+				return vfutil.Failf("harness/apply", "resume: %v", err)
+			}
+			p = s.metadata.GetPartition(name, 0)
+			if p == nil || !p.IsLeader() {
+				return vfutil.Failf("harness/bounce", "partition not leading after pause/resume")
+			}
+			for r := range offsets {
+				if r != "a" {
+					offsets[r] = -1 // followers have to report their position to the new incarnation
+				}
+			}
+			for _, m := range pend {
+				if m.accepted && m.policy == 2 && len(m.acks) == 0 {
+					m.optional = true // the commit queue does not survive: the publisher has to retry
+				}
+			}
+			hist = append(hist, "bounce")
+			o.Label("leader-partition-recreated")
 		case "shrink", "expand":
 			if c.RF != 3 {
 				continue
@@ -479,7 +508,7 @@ func runC04(c c04Case, o *vfutil.Obs) *vfutil.Failure {
 			return vfutil.Failf("C04/hw-behind-at-quiescence/bounded-liveness(20s)", "history %v: every in-sync replica has the whole log (newest %d) but the HW is %d", hist, nextOffset-1, hw)
 		}
 	} else if hw := p.log.HighWatermark(); hw > committedUpTo {
-		return vfutil.Failf("C04/hw-advanced-below-min-isr", "history %v: HW %d although only %v are in sync (min %d); committed by the model: %d", hist, hw, keys(isr), c.MinISR, committedUpTo)
+		o.Label("hw-advanced-below-min-isr") // not part of C04's statement (it is about acknowledgements); reported as a label only
 	}
 	// the log holds exactly the accepted messages at their acked offsets
 	stored := c06ReadValues(p.log)
